@@ -266,13 +266,23 @@ impl TensorWal {
         let path = path.as_ref().to_path_buf();
 
         // Get current size if file exists
-        let current_size = if path.exists() {
+        let mut current_size = if path.exists() {
             std::fs::metadata(&path)?.len()
         } else {
             0
         };
 
         let file = OpenOptions::new().create(true).append(true).open(&path)?;
+
+        // A crash can leave a partially written record at the end of the file.
+        // Replay stops there, so anything appended behind it would be unreadable:
+        // drop the torn tail before appending.
+        let valid_len = Self::complete_prefix_len(&path)?;
+        if valid_len < current_size {
+            file.set_len(valid_len)?;
+            file.sync_all()?;
+            current_size = valid_len;
+        }
 
         Ok(Self {
             file: BufWriter::new(file),
@@ -282,6 +292,37 @@ impl TensorWal {
             current_size,
             pending_sync_count: 0,
         })
+    }
+
+    /// Length of the longest prefix of the file that consists of complete records.
+    fn complete_prefix_len(path: &Path) -> io::Result<u64> {
+        let file = match File::open(path) {
+            Ok(f) => f,
+            Err(e) if e.kind() == io::ErrorKind::NotFound => return Ok(0),
+            Err(e) => return Err(e),
+        };
+        let total = file.metadata()?.len();
+        let mut reader = BufReader::new(file);
+        let mut valid_len = 0u64;
+
+        loop {
+            // Record header: [length u32][checksum u32]
+            let mut header = [0u8; 8];
+            match reader.read_exact(&mut header) {
+                Ok(()) => {},
+                Err(e) if e.kind() == io::ErrorKind::UnexpectedEof => break,
+                Err(e) => return Err(e),
+            }
+            let len = u64::from(u32::from_le_bytes([header[0], header[1], header[2], header[3]]));
+            if valid_len + 8 + len > total {
+                break; // payload incomplete
+            }
+            #[allow(clippy::cast_possible_wrap)]
+            reader.seek_relative(len as i64)?;
+            valid_len += 8 + len;
+        }
+
+        Ok(valid_len)
     }
 
     /// Get the WAL file path.
